@@ -3,6 +3,7 @@
 (* driver only converts text to the [json] datatype and back.                       *)
 From LCM Require Import Base.Prelude Base.Arr Base.ArrOps Base.PyVal Base.Json Base.QKernel.
 From LCM Require Import Gen.GridHelpersQ Gen.NdimageKernel Gen.GridValidate Gen.DiscreteNoShocks.
+From LCM Require Import Spec.Interp Spec.GridRules Model.Ndimage Model.Grids.
 Local Open Scope string_scope.
 
 Definition jpyval (j : json) : option pyval :=
@@ -19,6 +20,7 @@ Definition jpyval (j : json) : option pyval :=
     end
   else if String.eqb t "str" then Some PStr
   else if String.eqb t "none" then Some PNone
+  else if String.eqb t "other" then Some POther
   else Some POther.
 
 Definition of_outcome (r : res bool) : json :=
@@ -40,6 +42,17 @@ Definition run_kernel (fn : string) (c : json) : option json :=
     do a <- jfield_of jpyval "start" c ;; do b <- jfield_of jpyval "stop" c ;;
     do n <- jfield_of jpyval "n_points" c ;; do p <- jfield_of jbool "positive_start" c ;;
     Some (of_outcome (validate_continuous_grid a b n p))
+  else if String.eqb fn "map_coordinates" then
+    do a <- jfield_of (jarr jq) "input" c ;; do cs <- jfield_of (jlist_of jq) "coordinates" c ;;
+    Some (JObj [("model", of_q (map_coordinates a cs));
+                ("spec", of_q (interp (get 0%Q a) (shape a) cs))])
+  else if String.eqb fn "validate_discrete" then
+    do dc <- jfield_of jbool "is_dataclass" c ;; do vs <- jfield_of (jlist_of jpyval) "values" c ;;
+    Some (JObj [("model", JBool (validate_discrete_grid dc vs));
+                ("spec", JBool (spec_accepts_discrete dc vs))])
+  else if String.eqb fn "lin_points" then
+    do a <- jfield_of jq "start" c ;; do b <- jfield_of jq "stop" c ;; do n <- jfield_of jnat "n" c ;;
+    Some (of_list of_q (lin_points a b n))
   else None.
 
 Definition run (c : json) : json :=
